@@ -287,6 +287,9 @@ pub struct MemIo {
     /// when set, poll_flush stays pending: frames are accepted by the sink but not "on the wire"
     flush_stalled: Arc<AtomicBool>,
     flush_waker: Arc<Mutex<Option<std::task::Waker>>>,
+    /// byte-level back-pressure: `usize::MAX` = unlimited; otherwise the number of frames the
+    /// sink still accepts before it stays not-ready (a client that does not read)
+    credits: Arc<std::sync::atomic::AtomicUsize>,
 }
 
 impl Drop for MemIo {
@@ -304,6 +307,7 @@ pub struct ClientEnd {
     pub stalled: Arc<AtomicBool>,
     pub flush_stalled: Arc<AtomicBool>,
     pub flush_waker: Arc<Mutex<Option<std::task::Waker>>>,
+    pub credits: Arc<std::sync::atomic::AtomicUsize>,
 }
 
 pub fn mem_pair(km_secret: Option<[u8; 32]>, fault: Option<Fault>) -> (MemIo, ClientEnd) {
@@ -313,6 +317,7 @@ pub fn mem_pair(km_secret: Option<[u8; 32]>, fault: Option<Fault>) -> (MemIo, Cl
     let stalled = Arc::new(AtomicBool::new(false));
     let flush_stalled = Arc::new(AtomicBool::new(false));
     let flush_waker = Arc::new(Mutex::new(None));
+    let credits = Arc::new(std::sync::atomic::AtomicUsize::new(usize::MAX));
     (
         MemIo {
             rx: srx,
@@ -324,6 +329,7 @@ pub fn mem_pair(km_secret: Option<[u8; 32]>, fault: Option<Fault>) -> (MemIo, Cl
             stalled: stalled.clone(),
             flush_stalled: flush_stalled.clone(),
             flush_waker: flush_waker.clone(),
+            credits: credits.clone(),
         },
         ClientEnd {
             tx: Some(ctx),
@@ -332,6 +338,7 @@ pub fn mem_pair(km_secret: Option<[u8; 32]>, fault: Option<Fault>) -> (MemIo, Cl
             stalled,
             flush_stalled,
             flush_waker,
+            credits,
         },
     )
 }
@@ -375,6 +382,24 @@ impl ClientEnd {
             if let Some(w) = self.flush_waker.lock().unwrap().take() {
                 w.wake();
             }
+        }
+    }
+    /// Back-pressure: the relay may write `n` more frames to this client, then its writes block.
+    pub fn set_credits(&self, n: usize) {
+        self.credits.store(n, Ordering::SeqCst);
+        let w = self.flush_waker.lock().unwrap().take();
+        if let Some(w) = w {
+            w.wake();
+        }
+    }
+    pub fn add_credit(&self) {
+        let c = self.credits.load(Ordering::SeqCst);
+        if c != usize::MAX {
+            self.credits.store(c + 1, Ordering::SeqCst);
+        }
+        let w = self.flush_waker.lock().unwrap().take();
+        if let Some(w) = w {
+            w.wake();
         }
     }
     /// Has the server dropped its end (connection fully torn down)?
@@ -434,9 +459,22 @@ impl Sink<Bytes> for MemIo {
             let _ = cx;
             return Poll::Pending;
         }
+        if self.credits.load(Ordering::SeqCst) == 0 {
+            {
+                let mut w = self.flush_waker.lock().unwrap();
+                *w = Some(cx.waker().clone());
+            }
+            if self.credits.load(Ordering::SeqCst) == 0 {
+                return Poll::Pending;
+            }
+        }
         Poll::Ready(Ok(()))
     }
     fn start_send(self: Pin<&mut Self>, item: Bytes) -> Result<(), Self::Error> {
+        let c = self.credits.load(Ordering::SeqCst);
+        if c != usize::MAX && c > 0 {
+            self.credits.store(c - 1, Ordering::SeqCst);
+        }
         let n = self.counters.sends.fetch_add(1, Ordering::SeqCst);
         if let Some(f) = self.fault {
             if f.kind == FaultKind::SendErr && f.at as u64 == n {
